@@ -124,6 +124,8 @@ CF = 'sedfitter/convolved_fluxes/convolved_fluxes.py'
 MI = 'sedfitter/utils/misc.py'
 CU = 'sedfitter/sed/cube.py'
 MUST_FIRE = [
+    ('D20 reverted: cube flux multiplied by the unit factor and converted again on assignment', [(CV, "np.sum(sed_val * response, axis=1).to(u.mJy)", "np.sum(sed_val * response, axis=1) * sed_cube.val.unit.to(u.mJy)")]),
+    ('cube error multiplied by the unit factor and converted again', [(CV, "np.sqrt(np.sum((sed_unc * response) ** 2, axis=1)).to(u.mJy)", "np.sqrt(np.sum((sed_unc * response) ** 2, axis=1)) * sed_cube.unc.unit.to(u.mJy)")]),
     ('model_names[0] = s.name', [(CV, "fluxes[i].model_names[im] = s.name", "fluxes[i].model_names[0] = s.name")]),
     ('sort_to_match removed', [(CV, "        fluxes[i].sort_to_match(par_table['MODEL_NAME'])\n", "")]),
     ('order applied to flux only', [(CF, "        self.error = self.error[order, :]\n", "")]),
@@ -138,11 +140,13 @@ MUST_FIRE = [
     ('post-check removed', [(CF, "        if not np.all(self.model_names[order] == requested_model_names):\n            raise Exception(\"Sorting failed\")\n", "")]),
     ('flux permuted by a different order', [(CF, "self.flux = self.flux[order, :]", "self.flux = self.flux[np.argsort(order), :]")]),
     ('sorted by the directory names', [(CV, "fluxes[i].sort_to_match(par_table['MODEL_NAME'])", "fluxes[i].sort_to_match(fluxes[i].model_names)")]),
-    ('cube error unit factor from val', [(CV, "fluxes[i].error[:, i_ap] = np.sqrt(np.sum((sed_unc * response) ** 2, axis=1)) * unc_factor", "fluxes[i].error[:, i_ap] = np.sqrt(np.sum((sed_unc * response), axis=1)) * unc_factor")]),
+    ('cube error unit factor from val', [(CV, "fluxes[i].error[:, i_ap] = np.sqrt(np.sum((sed_unc * response) ** 2, axis=1)).to(u.mJy)", "fluxes[i].error[:, i_ap] = np.sqrt(np.sum((sed_unc * response), axis=1)).to(u.mJy)")]),
     ('cube reversal on the aperture axis', [(CU, "cube.val = cube.val[:, :, ::-1]", "cube.val = cube.val[:, ::-1, :]")]),
     ('central wavelength of the first filter', [(CV, "            fluxes[i].central_wavelength = f.central_wavelength\n            fluxes[i].apertures = apertures", "            fluxes[i].central_wavelength = filters[0].central_wavelength\n            fluxes[i].apertures = apertures")]),
 ]
 MUST_SILENT = [
+    ('cube flux converted by the assignment into the mJy array', [(CV, "np.sum(sed_val * response, axis=1).to(u.mJy)", "np.sum(sed_val * response, axis=1)")]),
+    ('cube flux as bare values times the factor, unit re-attached', [(CV, "np.sum(sed_val * response, axis=1).to(u.mJy)", "np.sum(sed_val.value * response, axis=1) * sed_cube.val.unit.to(u.mJy) * u.mJy")]),
     ('order via a temporary', [(CF, "self.flux = self.flux[order, :]", "new_flux = self.flux[order, :]\n        self.flux = new_flux")]),
     ('flux without trailing slice', [(CF, "self.error = self.error[order, :]", "self.error = self.error[order]")]),
 ]
